@@ -149,18 +149,23 @@ def jobs_for(ctx):
     rng = ctx.rng
     jobs = []
     corpus = corpus_cases()
+    boost = min(ctx.budget, 3.0)    # intensified search: bounded so that the run stays within the tier's wall-clock limit
+
+    def scale(q, t):
+        return max(1, int((t if ctx.thorough else q) * boost))
+
     # exhaustive kill points on the corpus projects (quick: 2 of them, rotating with the seed; thorough: all) …
     pick = corpus if ctx.thorough else [corpus[(ctx.seed + i) % len(corpus)] for i in (1, 3)]
     for c in pick:
         for i in range(4):
             jobs.append({"case": c, "mode": "all", "budget": 0, "seed": rng.randrange(1 << 30), "chunk": (i, 4)})
     # … on random ≤ 4-task projects …
-    for _ in range(ctx.scale(1, 12)):
+    for _ in range(scale(1, 12)):
         c = random_case(rng)
         for i in range(4):
             jobs.append({"case": c, "mode": "all", "budget": 0, "seed": rng.randrange(1 << 30), "chunk": (i, 4)})
     # … and sampled points, second kills and other recovery configurations on more and bigger projects
-    for _ in range(ctx.scale(6, 80)):
+    for _ in range(scale(6, 80)):
         jobs.append({"case": random_case(rng, big=rng.random() < 0.5), "mode": "sample", "budget": 8 if not ctx.thorough else 12,
                      "seed": rng.randrange(1 << 30)})
     return jobs
